@@ -64,6 +64,13 @@ NOW_INSTANTS = [datetime(2021, 1, 15, 12, 0, 0, 250000), datetime(2024, 2, 29, 2
 NOW_PHRASES = [("now", [(0, "second")], -1), ("2 hours ago", [(2, "hour")], -1), ("in 1 day", [(1, "day")], 1)]
 
 
+# bases next to a clock change of the TIMEZONE zone: the phrase is wall-clock ("calendar") arithmetic on the base whatever lies between
+DST_PHRASES = [("12 hours ago", [(12, "hour")], -1), ("in 90 minutes", [(90, "minute")], 1), ("in 3 hours", [(3, "hour")], 1),
+               ("5000 hours ago", [(5000, "hour")], -1), ("1 day ago", [(1, "day")], -1), ("in 2 days", [(2, "day")], 1),
+               ("in 86400 seconds", [(86400, "second")], 1), ("1 week ago", [(1, "week")], -1), ("in 1 month", [(1, "month")], 1), ("now", [(0, "second")], -1)]
+DST_OFFS = [-46800, -7200, -3600, -1, 1, 3600, 7200, 46800]
+
+
 def phrase(parts, sign, spell):
     bits = []
     for n, u in parts:
@@ -103,6 +110,12 @@ def spaces(tier, seed):
                                      "u": UNITS, "sign": [-1, 1], "spell": ["natural"], "xbase": ends}))
     zs = NOW_ZONES_T if T else NOW_ZONES
     sp.append(Product("implicit-now", {"tz": zs, "to": [None] + zs, "inst": range(len(NOW_INSTANTS)), "p": range(len(NOW_PHRASES))}))
+    from .c12 import REP, transitions
+    dstz = [z for z in (pytz.common_timezones if T else REP) if z in pytz.all_timezones_set and transitions(z)]
+    sp.append(Product("base-next-to-a-clock-change", {"tz": dstz, "t": range(6), "d": DST_OFFS, "p": range(len(DST_PHRASES)),
+                                                      "how": ["implicit-now", "aware-base", "aware-base+TIMEZONE"]},
+                      note="the base is an instant within 13 h of a DST/offset change of the zone, given as the virtual clock with TIMEZONE=zone or as a "
+                           "zone-aware RELATIVE_BASE; the naive wall-clock result must be base wall clock -/+ n units"))
     two_years = [datetime(2023, 1, 1) + timedelta(days=i, hours=23, minutes=59, seconds=59, microseconds=999999) for i in range(731)]
     sp.append(Product("sweep-base-2023-2024", {"xbase": two_years, "nu": [(1, "month"), (1, "year"), (13, "month"), (1, "day"), (1, "week"),
                                                                          (1, "decade"), (36, "hour"), (11, "month"), (4, "year")], "sign": [-1, 1]},
@@ -148,7 +161,32 @@ def run_case(sub, c):
     st = {}
     clockv = None
     rtp = c.get("rtp", False)
-    if sub == "implicit-now":
+    if sub == "base-next-to-a-clock-change":
+        from .c12 import transitions
+        tr = transitions(c["tz"])
+        if c["t"] >= len(tr):
+            return None
+        inst = tr[c["t"]] + timedelta(seconds=c["d"])
+        text, parts, sign = DST_PHRASES[c["p"]]
+        za = pytz.timezone(c["tz"])
+        base_local = pytz.utc.localize(inst).astimezone(za)
+        exp = relative.shift(base_local.replace(tzinfo=None), parts, sign)
+        expp = relative.period(parts)
+        if c["how"] == "implicit-now":
+            st = {"TIMEZONE": c["tz"]}
+            clock.freeze(inst)
+        else:
+            st = {"RELATIVE_BASE": base_local}
+            if c["how"] == "aware-base+TIMEZONE":
+                st["TIMEZONE"] = c["tz"]
+        try:
+            o = api.outcome_of(api.gdd, text, ["en"], None, None, st)
+        finally:
+            clock.freeze(None)
+        cls = {"form": sub, "how": c["how"], "unit": parts[0][1]}
+        if o[0] == "ok" and o[1].date_obj is not None and o[1].date_obj.replace(tzinfo=None) == exp and o[1].period == expp:
+            return "ok", True, None
+    elif sub == "implicit-now":
         inst = NOW_INSTANTS[c["inst"]]
         text, parts, sign = NOW_PHRASES[c["p"]]
         za = _zone(c["tz"])
